@@ -174,6 +174,8 @@ fn parent_main(args: &Args) {
     );
 
     let mut merged = Report::default();
+    let mut watchdog_hit = false;
+    let mut hung_calls = 0u32;
     let mut builds: Vec<String> = Vec::new();
     let mut per_build_evals: BTreeMap<String, u64> = BTreeMap::new();
     let mut crashed: Vec<String> = Vec::new();
@@ -230,7 +232,34 @@ fn parent_main(args: &Args) {
                 }
             };
             let Some(status) = status else {
-                inconclusive(&prop, "watchdog");
+                // the watchdog fired: the worker was killed. Every later worker that is still
+                // running is killed by the same test (the deadline has passed), so no process
+                // is left behind. For C17 ("never ... loops") a call that was entered and never
+                // returned is an observation: the call log is flushed before every call.
+                watchdog_hit = true;
+                let _ = r.child.wait();
+                if prop == "C17" {
+                    let text = std::fs::read_to_string(&r.log).unwrap_or_default();
+                    let mut open_call: Option<String> = None;
+                    for l in text.lines() {
+                        if l.contains("\"ev\":\"call\"") {
+                            open_call = Some(l.to_string());
+                        } else if l.contains("\"ev\":\"ret\"") || l.contains("\"ev\":\"panic\"") {
+                            open_call = None;
+                        }
+                    }
+                    if let Some(last) = open_call {
+                        let v = serde_json::from_str::<Value>(&last).unwrap_or(Value::Null);
+                        let entry = v["entry"].as_str().unwrap_or("<unknown>").to_string();
+                        hung_calls += 1;
+                        merged.violations.push(Violation {
+                            signature: format!("hang/{entry}"),
+                            group: 0,
+                            detail: json!({"what":"the call was entered and had not returned when the watchdog fired","watchdog_s":watchdog.as_secs(),"worker":r.k,"bin":r.bin,"last_call":v}),
+                        });
+                    }
+                }
+                continue;
             };
             if !status.success() {
                 // a worker that died: for C17 that is itself an observation (abort that
@@ -291,6 +320,15 @@ fn parent_main(args: &Args) {
         });
     }
 
+    if watchdog_hit && hung_calls == 0 {
+        // workers were killed by the watchdog and no call is known to have hung (other
+        // properties keep no call log): nothing can be concluded from this run
+        inconclusive(&prop, "watchdog");
+    }
+    if watchdog_hit {
+        merged.harness_errors.clear(); // killed workers leave no report; the hang itself is the observation
+        crashed.clear();
+    }
     finish(args, merged, builds, per_build_evals, crashed, t0);
 }
 
